@@ -268,7 +268,7 @@ func keysOf(m map[string]bool) []string {
 func runC06(tier string, _ []string) int {
 	c := vlib.NewCtx("C06", tier, "exploration")
 	vlib.SetPortBlock(6)
-	c.SetRule("per case a fresh instance and a graph of one generator class (chain, wide, mirror, diamond, tombstoned edge in the middle, node under two parents one of which is deleted, deleted then undeleted, random history, a node whose first edge names no parent and that is placed below a real node later, a node moved into a group of its own parent, a ladder of twelve diamonds with 4096 ways from the bottom to the top); then every node (incl. the root and one detached node that has points but no edge) is written once with an acknowledged node batch and every placement once with an edge batch (newer than what is stored; some carry a point of the tombstone's type under another key, which says nothing about the edge); an up.> subscription on the writer's connection is drained at the reply barrier and compared with the model: {node} + ancestors through live edges (node points) / through any edges (edge points) + the root sentinel, payload equal to the points sent. In every second case 4-9 random legal graph operations follow (mirror, move, delete, undelete, create) and every node and placement is written and checked again. (Thorough tier: one instance serves 66 000 writes, then 200 quiet nodes are written again at distances around 2^16 writes.) In every third case a concurrent phase follows: an edge is deleted / undeleted 6-17 times while a second connection writes back to back to a node below it; at rest afterwards, writes below the edge must be announced exactly according to the final graph. distinct = (shape, node|edge, size of expected set, duplicates seen)")
+	c.SetRule("per case a fresh instance and a graph of one generator class (chain, wide, mirror, diamond, tombstoned edge in the middle, node under two parents one of which is deleted, deleted then undeleted, random history, a node whose first edge names no parent and that is placed below a real node later, a node moved into a group of its own parent, a ladder of twelve diamonds with 4096 ways from the bottom to the top); then every node (incl. the root and one detached node that has points but no edge) is written once with an acknowledged node batch and every placement once with an edge batch (newer than what is stored; some carry a point of the tombstone's type under another key, which says nothing about the edge); an up.> subscription on the writer's connection is drained at the reply barrier and compared with the model: {node} + ancestors through live edges (node points) / through any edges (edge points) + the root sentinel, payload equal to the points sent. In every second case 4-9 random legal graph operations follow (mirror, move, delete, undelete, create) and every node and placement is written and checked again. (Thorough tier: one instance serves 66 000 writes, then 200 quiet nodes are written again at distances around 2^16 writes.) In two cases out of three a concurrent phase follows: an edge is deleted / undeleted 6-17 times while a second connection writes back to back to a node below it; at rest afterwards, writes below the edge must be announced exactly according to the final graph. distinct = (shape, node|edge, size of expected set, duplicates seen)")
 	c.Assume("the store publishes rebroadcasts before the reply on one connection and NATS keeps per-publisher order to a subscriber connection (barrier, DESIGN C05)")
 	nGraphs := c.N(160, 1600)
 	vlib.Parallel(nGraphs, 6, func(i int) {
@@ -434,7 +434,7 @@ func runC06(tier string, _ []string) int {
 		// ---- concurrent phase: the ancestor set of a node changes (edge deleted / undeleted / mirrored)
 		// while another connection writes to a node below it back to back; afterwards, at rest, a
 		// write below must be announced according to the final graph
-		if i%3 == 0 && !ladder {
+		if i%3 != 1 && !ladder {
 			var cands [][2]string
 			for _, k := range d.g.EdgeKeys() {
 				if k[1] != in.RootID && k[0] != "root" {
